@@ -102,7 +102,8 @@ Resolve(n) ==
 Used == IF WithHist THEN {hist[i].n : i \in 1..Len(hist)} \ {0} ELSE Names
 Fresh(n) == n <= Cardinality(Used) + 1
 
-First(k) == Part = 0 \/ nops > 0 \/ Part = k
+\* (written with IF: a disjunction inside an action makes TLC generate the successor once per true disjunct)
+First(k) == IF Part = 0 THEN TRUE ELSE IF nops > 0 THEN TRUE ELSE Part = k
 
 Next == /\ nops < MaxOps
         /\ \/ (First(1) /\ Push)
